@@ -2,7 +2,9 @@
 // scoped Lisp interpreter for the program subset the C08 generator emits
 // (defun, calls with arguments, let/let*, if/cond/when/unless, and/or,
 // progn, setq, dotimes, small-integer arithmetic, list construction, trace
-// markers, funcall/apply, global variables). It is written from the language
+// markers, funcall/apply, global variables, ordinary lambda lists with
+// &optional / &rest / &key and init forms, ignore-errors around a call that
+// does not fit the callee's lambda list). It is written from the language
 // definition and does not import slip.
 package ref
 
